@@ -286,6 +286,16 @@ def check(prog, rep, tier):
                   and strip_epochs(c.atom)[3][0] == "c" and strip_epochs(c.atom)[3][1] in ("mean", "mean-min")]
         name = chosen[0] if chosen else "min"
         sets = [strip_epochs(e.value) for e in p.events if e.kind == "setfield" and e.base == SELF and e.name == SLOT]
+        if sets and not chosen:
+            # table form: {"mean": mean, "mean-min": mean_min}.get(name, min) - all three rows at once
+            v_ = sets[-1]
+            while v_[0] == "phi" and v_[3][0] == "bm" and v_[3][2] == WANT["min"]:
+                v_ = v_[2]  # (... if val is not None else min)
+            if v_[0] == "call" and v_[1][0] == "m" and v_[1][2] == "get" and v_[1][1][0] == "dct" and len(v_[2]) == 2:
+                table = {k_[1]: m_[2] for k_, m_ in v_[1][1][1] if k_[0] == "c" and m_[0] == "bm"}
+                dflt = v_[2][1][2] if v_[2][1][0] == "bm" else None
+                if table == {"mean": WANT["mean"], "mean-min": WANT["mean-min"]} and dflt == WANT["min"]:
+                    continue
         got = sets[-1][2] if sets and sets[-1][0] == "bm" else None
         if got != WANT[name]:
             rep.bad("C06.mean-queries", "CountMinSketch.query_type", f"'{name}' selects {got or 'nothing'}",
